@@ -15,6 +15,9 @@
 // $Name is replaced by the shape's attribute of that name (GoType, CastTo, CastFrom, ...).
 package main
 
+// ---- shared abbreviations (file level: must precede the first contract)
+//@ define wfc(c) = c != nil && c.config != nil && c.field != nil && c.field.FieldDescriptorProto != nil
+
 // ===================================================================== config.go (C16, C14)
 
 //@ func flagMapFromArray
@@ -91,6 +94,89 @@ package main
 //@ ensures [C16] imp(result1 != nil, result0 == nil)
 //@ ensures [C16,C14] imp(result1 == nil, cliList("types", result0.Types) && cliList("exclude_fields", result0.ExcludeFields) && cliList("computed_fields", result0.ComputedFields) && cliList("required_fields", result0.RequiredFields) && cliList("sensitive", result0.SensitiveFields))
 //@ ensures [C16] imp(result1 == nil, cliStr("default_package_name", result0.DefaultPackageName) && cliStr("target_package_name", result0.TargetPackageName) && cliStr("custom_duration", result0.DurationCustomType))
+
+// ===================================================================== field_descriptor_proto_ext.go, field_build_context.go
+
+// first comma-separated element of the json tag; "-" and an unset tag mean "no name"
+//@ func FieldDescriptorProtoExt.GetJSONName
+//@ pure
+//@ requires f != nil
+//@ define tag = gogoproto.GetJsonTag(f.FieldDescriptorProto)
+//@ define head = strings.Split(*tag, ",")[0]
+//@ ensures [C02] imp(tag == nil, result == "")
+//@ ensures [C02] imp(tag != nil, result == ite(head == "-", "", head))
+
+// an option keyed by the full path or by Message.Field addresses the field; nothing else does
+//@ func FieldBuildContext.GetFlagValue
+//@ pure
+//@ requires c != nil
+//@ ensures [C10,C11] result == (has(f, c.typeName) || has(f, c.path))
+
+//@ func FieldBuildContext.IsExcluded
+//@ pure
+//@ requires wfc(c)
+//@ ensures [C11] result == (has(c.config.ExcludeFields, c.typeName) || has(c.config.ExcludeFields, c.path))
+
+//@ func FieldBuildContext.IsComputed
+//@ pure
+//@ requires wfc(c)
+//@ ensures [C10,C11] result == (has(c.config.ComputedFields, c.typeName) || has(c.config.ComputedFields, c.path))
+
+// attribute name: name_overrides (full path first, then Message.Field), else json tag, else snake_case
+//@ func FieldBuildContext.GetNameSnake
+//@ pure
+//@ requires wfc(c)
+//@ define ov = c.config.NameOverrides
+//@ define json = c.field.GetJSONName()
+//@ ensures [C02,C11] imp(has(ov, c.path), result == ov[c.path])
+//@ ensures [C02,C11] imp(!has(ov, c.path) && has(ov, c.typeName), result == ov[c.typeName])
+//@ ensures [C02] imp(!has(ov, c.path) && !has(ov, c.typeName) && json != "", result == json)
+//@ ensures [C02] imp(!has(ov, c.path) && !has(ov, c.typeName) && json == "", result == strcase.SnakeCase(c.field.GetName()))
+
+//@ func FieldBuildContext.GetValidators
+//@ requires wfc(c)
+//@ define vs = c.config.Validators
+//@ ensures [C10,C11] imp(has(vs, c.path), same(result, vs[c.path]))
+//@ ensures [C10,C11] imp(!has(vs, c.path) && has(vs, c.typeName), same(result, vs[c.typeName]))
+//@ ensures [C10,C11] imp(!has(vs, c.path) && !has(vs, c.typeName), len(result) == 0)
+
+//@ func FieldBuildContext.GetPlanModifiers
+//@ requires wfc(c)
+//@ define pm = c.config.PlanModifiers
+//@ define computed = has(c.config.ComputedFields, c.typeName) || has(c.config.ComputedFields, c.path)
+//@ ensures [C10,C11] imp(has(pm, c.path), same(result, pm[c.path]))
+//@ ensures [C10,C11] imp(!has(pm, c.path) && has(pm, c.typeName), same(result, pm[c.typeName]))
+//@ ensures [C10] imp(!has(pm, c.path) && !has(pm, c.typeName) && c.config.UseStateForUnknownByDefault && computed, len(result) == 1 && result[0] == "github.com/hashicorp/terraform-plugin-framework/tfsdk.UseStateForUnknown()")
+//@ ensures [C10] imp(!has(pm, c.path) && !has(pm, c.typeName) && !(c.config.UseStateForUnknownByDefault && computed), len(result) == 0)
+
+//@ func FieldBuildContext.GetNullable
+//@ pure
+//@ requires c != nil
+//@ ensures result == strcontains(c.goType, "*")
+
+//@ func FieldBuildContext.GetTerraformTypeOverride
+//@ requires wfc(c)
+//@ define st = c.config.SchemaTypes
+//@ ensures [C11] imp(has(st, c.path), result != nil && same(*result, st[c.path]))
+//@ ensures [C11] imp(!has(st, c.path) && has(st, c.typeName), result != nil && same(*result, st[c.typeName]))
+//@ ensures [C11] imp(!has(st, c.path) && !has(st, c.typeName), result == nil)
+
+// custom types: the proto option or a custom_types entry for the field's path; the entry wins
+//@ func FieldBuildContext.IsCustomType
+//@ pure
+//@ requires wfc(c)
+//@ ensures [C17] result == (gogoproto.IsCustomType(c.field.FieldDescriptorProto) || has(c.config.CustomTypes, c.path))
+
+//@ func FieldBuildContext.GetCustomType
+//@ pure
+//@ requires wfc(c)
+//@ ensures [C17] result == ite(has(c.config.CustomTypes, c.path), c.config.CustomTypes[c.path], gogoproto.GetCustomType(c.field.FieldDescriptorProto))
+
+//@ func FieldBuildContext.GetName
+//@ pure
+//@ requires wfc(c) && c.field.GetName() != ""
+//@ define n = c.field.GetName()
+//@ ensures result == ite(n[0:1] == strings.ToLower(n[0:1]), strcase.UpperCamelCase(n), n)
 
 // ===================================================================== CopyFrom, emitted code
 
